@@ -46,8 +46,12 @@ Changed(o, n, hsh) == There(o) /\ There(n) /\ (o.k # n.k \/ (IsFile(o) /\ (o.c #
 ExecOnly(o, n, hsh) == IsFile(o) /\ IsFile(n) /\ o.c = n.c /\ hsh /\ o.x # n.x
 \* breadth-first order: by depth (the order inside one level is irrelevant to the outcome)
 ByDepth(S) == SortSeq(SetToSeq(S), LAMBDA a, b : Depth[a] < Depth[b])
-Compare(w, t, delete, hsh) ==
-    LET gone  == {p \in Paths : There(w[p]) /\ ~There(t[p])}
+\* F16 (open): a dangling symbolic link in the workspace is an index entry without metadata and hash; where the target
+\* has a directory the index diff calls that ADD, so nothing deletes the link and making the directory fails
+Ghosts(w, t) == {p \in Paths : IsFile(w[p]) /\ w[p].c = "dangling" /\ IsDir(t[p])}
+Compare(w0, t, delete, hsh) ==
+    LET w     == [p \in Paths |-> IF p \in Ghosts(w0, t) THEN Nope ELSE w0[p]]
+        gone  == {p \in Paths : There(w[p]) /\ ~There(t[p])}
         fresh == {p \in Paths : ~There(w[p]) /\ There(t[p])}
         chg   == {p \in Paths : Changed(w[p], t[p], hsh)}
         delS  == (IF delete THEN gone ELSE {}) \cup chg
@@ -94,7 +98,13 @@ Apply(w, t, a, L, lk) ==
         \* named behaviour: with update_meta (the default) the created files are stat-ed afterwards, so any entry that
         \* could not be created makes apply() raise FileNotFoundError after the error callback was called
         er == L.files_create \ (ok \cup dg \cup mute)
-    IN [ws |-> w5, errs |-> er, crash |-> bad # {} \/ (\E p \in er : ~There(w4[p])) \/ dg # {},
+        ghost == {p \in Ghosts(w, t) : There(w2[p])}
+    IN IF ghost # {}
+       THEN \* makedirs() raises FileExistsError: apply() stops after the deletions (which directories were made before
+            \* that depends on the order of the list and is not modelled)
+            [ws |-> w2, errs |-> {}, crash |-> TRUE, dev |-> IF "F16" \in KnownDev THEN {"F16"} ELSE {}]
+       ELSE
+       [ws |-> w5, errs |-> er, crash |-> bad # {} \/ (\E p \in er : ~There(w4[p])) \/ dg # {},
         dev |-> IF (dg # {} \/ \E p \in mute : t[p].c \notin a) /\ "F13" \in KnownDev THEN {"F13"} ELSE {}]
 
 (******************************* state machine ******************************)
